@@ -84,6 +84,12 @@ def objective(theta, S, lam):
 
 
 def run(ctx):
+    _run_main(ctx)
+    if ctx.replay is None:
+        _verbose_and_copies(ctx)
+
+
+def _run_main(ctx):
     common.setup_repo_import()
     from fast_ticc import admm, matrix_compression as mc
     from fast_ticc.admm import solver
@@ -376,3 +382,38 @@ def run(ctx):
                  sample={"N": N, "W": W, "lambda": lam_kind, "rho": rho, "cov": kind, "stopped": stopped, "iterations": iters}
                  if len(ctx.samples) < 6 else None)
     ctx.extra["max_iterations_seen_on_stopped_runs"] = max_iter_seen
+
+
+def _verbose_and_copies(ctx):
+    """glue around the solver: verbose logging must not change the result; argument bundles copy field by field."""
+    import logging
+    from fast_ticc import admm
+    from fast_ticc.containers import arguments
+    rs = np.random.RandomState(ctx.seed + 202)
+    for rep in range(3):
+        N, W = [(1, 2), (2, 2), (2, 3)][rep]
+        n = N * W
+        A = rs.randn(3 * n, n)
+        S = np.cov(A.T).reshape(n, n)
+        quiet_ = admm.admm_optimize_theta(S, 0.25, W, N, max_iterations=200, verbose=False)
+        lg = logging.getLogger("fast_ticc")
+        old = lg.level
+        lg.setLevel(logging.CRITICAL)
+        try:
+            loud = admm.admm_optimize_theta(S, 0.25, W, N, max_iterations=200, verbose=True)
+        finally:
+            lg.setLevel(old)
+        if np.asarray(quiet_.theta).tobytes() != np.asarray(loud.theta).tobytes():
+            ctx.violation("impl-violation", "verbose=True changes the optimiser's result", {"N": N, "W": W}, {"site": "verbose"})
+        ctx.count("verbose_vs_quiet_solves")
+    a = arguments.ADMMArguments(window_size=3, num_data_series=2, rho=1.5, rho_update=None, sparsity_weight=0.25,
+                                absolute_tolerance=1e-6, relative_tolerance=1e-5, max_iterations=77, verbose=False)
+    for cp in (a.shallow_copy(), a.deep_copy()):
+        same = all(getattr(cp, f) == getattr(a, f) for f in ("window_size", "num_data_series", "rho", "sparsity_weight",
+                                                              "absolute_tolerance", "relative_tolerance", "max_iterations", "verbose"))
+        if cp is a or not same:
+            ctx.violation("impl-violation", "a copy of the solver's argument bundle does not carry the same fields", {}, {"site": "admm-args-copy"})
+        cp.rho = 9.0
+        if a.rho != 1.5:
+            ctx.violation("impl-violation", "writing rho on a copy of the solver's argument bundle changed the original", {}, {"site": "admm-args-copy"})
+    ctx.case(("verbose-and-copies",), nontrivial=True)
